@@ -362,6 +362,10 @@ class CHText:
             # copy of the list: 'other' may be self)
             for part in other.chunks[:]:
                 self._append_chunk(part)
+        elif hasattr(other, 'get_ch_text'):
+            # an object which stands for a CHText (f.e. ppobj.CHTextResult):
+            # str() of such object contains color sequences
+            self += other.get_ch_text()
         else:
             self._append_chunk(self.Chunk.make_plain(str(other)))
 
